@@ -635,17 +635,24 @@ impl<'a> P<'a> {
                 }
             };
         }
-        // a bare literal is an argument only when it is the whole argument
+        // a literal, a filter-query or a function-expr is an argument of that kind only when it is the
+        // whole argument; anything else is a logical-expr
         let save = self.i;
-        if let Ok(Operand::Lit(l)) = self.operand() {
+        let calls = self.info.fn_calls;
+        if let Ok(o) = self.operand() {
             let after = self.i;
             self.skip_s();
             if matches!(self.peek(), Some(',') | Some(')')) {
                 self.i = after;
-                return Ok(Expr::BareLit(l));
+                return Ok(match o {
+                    Operand::Lit(l) => Expr::BareLit(l),
+                    Operand::Query(q) => Expr::Test(q),
+                    Operand::Func(f) => Expr::FuncTest(f),
+                });
             }
         }
         self.i = save;
+        self.info.fn_calls = calls;
         self.or_expr()
     }
 
